@@ -113,6 +113,7 @@ func (u *unitCtx) function(n ast.Node, fn *types.Func) *fnInfo {
 		ptypes = append(ptypes, u.leanType(fd, p.Type()))
 	}
 
+	c.params = pobjs
 	// pre-scan: which pointer parameters are written through; which error results are always nil
 	asg := assignedRoots(u.p.info, fd.Body)
 	ast.Inspect(fd.Body, func(n ast.Node) bool {
@@ -141,6 +142,15 @@ func (u *unitCtx) function(n ast.Node, fn *types.Func) *fnInfo {
 		case *ast.IncDecStmt:
 			mark(s.X)
 		case *ast.CallExpr:
+			if id, ok := unparen(s.Fun).(*ast.Ident); ok && id.Name == "copy" && len(s.Args) == 2 {
+				if _, isb := u.p.info.Uses[id].(*types.Builtin); isb {
+					dst := unparen(s.Args[0]) // copy(dst, src) writes the elements of dst
+					if se, ok := dst.(*ast.SliceExpr); ok {
+						dst = se.X
+					}
+					mark(&ast.IndexExpr{X: dst}) // an element of dst is written
+				}
+			}
 			// a callee of this package that writes through a pointer parameter we pass on
 			tmp := &fnCtx{u: u, info: u.p.info}
 			if cal, recv := tmp.callee(s); cal != nil && cal.Pkg() == u.p.pkg {
@@ -269,9 +279,20 @@ func (u *unitCtx) function(n ast.Node, fn *types.Func) *fnInfo {
 		}
 	}
 	b.WriteString(" -/\n")
+	if len(c.hidden) > 0 {
+		b.Reset()
+		fmt.Fprintf(&b, "/-- Go (%s): `%s`\n  the trailing parameters are HIDDEN STATE: what the backing arrays of the slices whose capacity the code looks at\n  hold between length and capacity (notes/go2lean.md \"Capacity\"); result:", relFile(u, fd), sigText(u.l.fset, fd))
+		for _, m := range c.muts {
+			fmt.Fprintf(&b, " new *%s,", m.Name())
+		}
+		b.WriteString(" the Go results -/\n")
+	}
 	fmt.Fprintf(&b, "def %s", name)
 	for i := range pnames {
 		fmt.Fprintf(&b, " (%s : %s)", pnames[i], ptypes[i])
+	}
+	for _, h := range c.hidden {
+		fmt.Fprintf(&b, " %s", h)
 	}
 	switch {
 	case single != "" && !c.partial:
@@ -284,7 +305,7 @@ func (u *unitCtx) function(n ast.Node, fn *types.Func) *fnInfo {
 		fmt.Fprintf(&b, " : %s := Id.run do\n%s\n", rtype, strings.Join(c.lines, "\n"))
 	}
 	u.out = append(u.out, b.String())
-	fi := &fnInfo{name: name, partial: c.partial, mutPtrs: mutIdx, nres: nres}
+	fi := &fnInfo{name: name, partial: c.partial, mutPtrs: mutIdx, nres: nres, hidden: c.hiddenType}
 	u.done[fn] = fi
 	return fi
 }
